@@ -20,6 +20,7 @@ EXPLANATION = (
     "C05.6 clone flags contain VM|FS|FILES|SIGHAND|THREAD|SETTLS|CHILD_CLEARTID, the child-tid argument is the address of the exit word, the exit word starts as UNFINISHED != 0 and waits expect exactly that value, with the futex flavour of the kernel's wake; "
     "C05.7 the x86_64 trampoline (aarch64 in the thorough tier) puts syscall number, flags, new stack, child-tid and TLS in the registers the ABI wants and the start function and its argument reach the indirect call. "
     "C05.1 also: the clone call is attempted once (no retry loop around it), so a refusal is returned. "
+    "C05.6 also: no library code stores to the exit word after initialisation or wakes its waiters (only the kernel's clear-tid write releases a joiner). "
     "NOT decided: that a created thread really starts/finishes (kernel), timing of join vs exit beyond these ordering obligations.")
 ASSUMPTIONS = ["CLONE_CHILD_CLEARTID: the kernel stores 0 to the child-tid word and futex-wakes it when the thread exits", "System V x86_64 / AAPCS64 calling conventions"]
 
